@@ -20,7 +20,8 @@ EXTENDS JqParse
 CONSTANTS Fams,      \* families to enumerate (set of strings)
           Seed,      \* selects the third of the triples / the deep sample / the extra run
           Mod,       \* 1: every operator triple; 3: those with (i+j+k+Seed) % 3 = 0
-          NDeep      \* number of sampled operator sequences of length 4 (family deep)
+          NDeep,     \* number of sampled operator sequences of length 4 (family deep)
+          PMod       \* family prim3: the operator triples x place x primary with (i+j+k+q+s+Seed) % PMod = 0
 
 BinOpSeq == <<"*", "/", "%", "+", "-", "==", "!=", "<", "<=", ">", ">=", "~", "!~", "is",
               "&&", "||", "=", "+=", "-=", "*=", "/=">>
@@ -81,6 +82,24 @@ InnerSeq == <<
   [base |-> Id("f"), sfx |-> <<SCall(<<Un("!", Bin("==", Id("u"), Id("v")))>>)>>]
 >>
 
+\* Operand FORMS: every primary expression of the language that is not a variable (a parser can
+\* dispatch on the token an operand starts with - the regex literal has a prefix rule of its own, on
+\* the token `/` that is also an operator -, so "every operator sequence" has to be crossed with
+\* "every kind of operand at every place"): a regex literal, a string in single quotes, null, `$`,
+\* an array literal, an object literal, a match expression.  (Numbers, strings in double quotes
+\* and booleans are written in place of the variables by the harness: the -lit forms.)
+PrimSeq == <<
+  Lit("Prim", "/s/"),
+  Lit("Prim", "'s'"),
+  Lit("null", "null"),
+  Id("$"),
+  Arr(<<Lit("Num", "4"), Lit("Num", "9")>>),
+  Lit("Prim", "{k: 7}"),
+  Lit("Prim", "match (2) { 2 => 5 }")
+>>
+NPrim == Len(PrimSeq)
+WithBase(d, q, b) == [d EXCEPT !.base[q] = b]
+
 \* deterministic pseudo-random operator index from Seed, sample number s, place j
 \* (TLC integers are 32 bit: keep the products small)
 Rnd(s, j, m) == (((((Seed % 1000) + 1) * 7919 + (s % 10000) * 4729 + j * 9973 + ((s * j) % 1000) * 5843) % 100003) % m) + 1
@@ -89,8 +108,8 @@ Sel(i, j, k) == (i + j + k + (Seed % 1000)) % Mod = 0
 
 \* the first component a family is enumerated by (picked in Init), the rest in Next
 FirstRange(fam) ==
-  CASE fam \in {"bin1", "bin2", "bin3", "pre1", "pre2", "suf1", "suf2"} -> 1..NB
-    [] fam \in {"prepre", "presuf"} -> 1..3
+  CASE fam \in {"bin1", "bin2", "bin3", "pre1", "pre2", "suf1", "suf2", "prim1", "prim2", "prim3"} -> 1..NB
+    [] fam \in {"prepre", "presuf", "preprim"} -> 1..3
     [] fam = "chain4" -> 1..5
     [] fam = "sufsuf" -> 1..Len(Suf2Seq)
     [] fam = "inner" -> 1..Len(InnerSeq)
@@ -123,6 +142,23 @@ DescsOf(fam, i1) ==
                         \cup {WithSuf(MkBin(<<BinOpSeq[j]>>), q, InnerSeq[i1]) : j \in {1, 5, 8, 16}, q \in 1..2}
     [] fam = "chain4" -> {MkBin(<<AssignSeq[i1], AssignSeq[x[1]], AssignSeq[x[2]], o4>>) :
                             x \in (1..5) \X (1..5), o4 \in AssignOps \cup {"+", "<", "||"}}
+    \* a primary at every place of every single operator (and at both places), of every ordered pair,
+    \* of a selection of the ordered triples; under a prefix operator, alone and next to every operator
+    [] fam = "prim1" -> LET d == MkBin(<<BinOpSeq[i1]>>) IN
+                        {WithBase(d, q, PrimSeq[s]) : q \in PrePositions(d), s \in 1..NPrim}
+                        \cup (IF IsTyPos(d, 2) THEN {}
+                              ELSE {WithBase(WithBase(d, 1, PrimSeq[s]), 2, PrimSeq[s2]) : s \in 1..NPrim, s2 \in 1..NPrim})
+                        \cup (IF i1 = 1 THEN {WithBase(MkBin(<<>>), 1, PrimSeq[s]) : s \in 1..NPrim} ELSE {})
+    [] fam = "prim2" -> UNION {LET d == MkBin(<<BinOpSeq[i1], BinOpSeq[j]>>) IN
+                               {WithBase(d, q, PrimSeq[s]) : q \in PrePositions(d), s \in 1..NPrim} : j \in 1..NB}
+    [] fam = "prim3" -> {LET d == MkBin(<<BinOpSeq[i1], BinOpSeq[x[1]], BinOpSeq[x[2]]>>) IN
+                         IF IsTyPos(d, x[3]) THEN d ELSE WithBase(d, x[3], PrimSeq[x[4]]) :
+                           x \in {y \in (1..NB) \X (1..NB) \X (1..4) \X (1..NPrim) :
+                                   (i1 + y[1] + y[2] + y[3] + y[4] + (Seed % 1000)) % PMod = 0}}
+    [] fam = "preprim" -> {WithPre(WithBase(MkBin(<<>>), 1, PrimSeq[s]), 1, <<PreSeq[i1]>>) : s \in 1..NPrim}
+                          \cup UNION {LET d == MkBin(<<BinOpSeq[j]>>) IN
+                                      {WithPre(WithBase(d, q, PrimSeq[s]), q, <<PreSeq[i1]>>) : q \in PrePositions(d), s \in 1..NPrim} :
+                                      j \in 1..NB}
     [] fam = "deep" -> {LET d == MkBin([j \in 1..4 |-> BinOpSeq[Rnd(s, j, NB)]])
                             q == Rnd(s, 7, 5)
                             u == PreSeq[Rnd(s, 8, 3)]
@@ -211,9 +247,14 @@ NegSeq == [j \in 1..Len(NegCases) |-> NegCases[j].t]
 \* integers, strings contain the letter s (so none is numeric), booleans.
 \* "err": a runtime error; "unk": outside the exactly-specified universe
 \* (non-integral quotient, zero dividend, negative zero, containers, calls).
+\* null and a regex value follow the tables of DESIGN.md 3.1-3.7: not truthy, number 0, string
+\* form ""; null is below everything else and equal to null only; a regex is a pattern for ~.
+\* How a regex value PRINTS is not fixed: an outcome that shows one is "unk".
 NumV(n) == [k |-> "n", n |-> n, s |-> "", b |-> FALSE]
 StrV(s) == [k |-> "s", n |-> 0, s |-> s, b |-> FALSE]
 BoolV(b) == [k |-> "b", n |-> 0, s |-> "", b |-> b]
+NullV == [k |-> "z", n |-> 0, s |-> "", b |-> FALSE]      \* null
+ReV(p) == [k |-> "r", n |-> 0, s |-> p, b |-> FALSE]      \* a regex value with pattern text p
 ErrV == [k |-> "err", n |-> 0, s |-> "", b |-> FALSE]
 UnkV == [k |-> "unk", n |-> 0, s |-> "", b |-> FALSE]
 Bad(v) == v.k \in {"err", "unk"}
@@ -221,7 +262,7 @@ Bad(v) == v.k \in {"err", "unk"}
 NumOf(v) == CASE v.k = "n" -> v.n [] v.k = "b" -> (IF v.b THEN 1 ELSE 0) [] OTHER -> 0
 StrOf(v) == CASE v.k = "n" -> ToString(v.n) [] v.k = "s" -> v.s [] OTHER -> ""
 Truthy(v) == CASE v.k = "n" -> v.n # 0 [] v.k = "s" -> v.s # "" [] OTHER -> v.b
-KindName(v) == CASE v.k = "n" -> "number" [] v.k = "s" -> "string" [] OTHER -> "bool"
+KindName(v) == CASE v.k = "n" -> "number" [] v.k = "s" -> "string" [] v.k = "z" -> "null" [] v.k = "r" -> "regex" [] OTHER -> "bool"
 
 Abs(x) == IF x < 0 THEN -x ELSE x
 Sgn(x) == IF x < 0 THEN -1 ELSE IF x > 0 THEN 1 ELSE 0
@@ -237,7 +278,9 @@ StrCmp(x, y) ==
        IN IF cx # cy THEN Sgn(cx - cy) ELSE StrCmp(SubSeq(x, 2, Len(x)), SubSeq(y, 2, Len(y)))
 Contains(s, p) == \E j \in 1..(Len(s) - Len(p) + 1) : SubSeq(s, j, j + Len(p) - 1) = p
 
-Cmp3(L, R) == IF L.k = "s" /\ R.k = "s" THEN StrCmp(L.s, R.s) ELSE Sgn(NumOf(L) - NumOf(R))
+Cmp3(L, R) ==
+  IF L.k = "z" \/ R.k = "z" THEN (IF L.k = R.k THEN 0 ELSE IF L.k = "z" THEN -1 ELSE 1)
+  ELSE IF L.k = "s" /\ R.k = "s" THEN StrCmp(L.s, R.s) ELSE Sgn(NumOf(L) - NumOf(R))
 
 BinVal(op, L, R) ==
   LET l == NumOf(L)
@@ -257,20 +300,26 @@ BinVal(op, L, R) ==
        [] op = "<=" -> BoolV(Cmp3(L, R) <= 0)
        [] op = ">" -> BoolV(Cmp3(L, R) > 0)
        [] op = ">=" -> BoolV(Cmp3(L, R) >= 0)
-       [] op = "~" -> IF R.k # "s" THEN ErrV ELSE BoolV(Contains(StrOf(L), R.s))
-       [] op = "!~" -> IF R.k # "s" THEN ErrV ELSE BoolV(~Contains(StrOf(L), R.s))
+       [] op = "~" -> IF R.k \notin {"s", "r"} THEN ErrV ELSE BoolV(Contains(StrOf(L), R.s))
+       [] op = "!~" -> IF R.k \notin {"s", "r"} THEN ErrV ELSE BoolV(~Contains(StrOf(L), R.s))
 
 UnVal(op, v) ==
   CASE op = "!" -> BoolV(~Truthy(v))
     [] op = "+" -> NumV(NumOf(v))
     [] op = "-" -> IF NumOf(v) = 0 THEN UnkV ELSE NumV(-NumOf(v))
 
+\* the value of an opaque primary, where the tables fix it
+PrimVal(text) == CASE text = "/s/" -> ReV("s") [] text = "'s'" -> StrV("s") [] OTHER -> UnkV
+
 \* Ev(t, env, ty): [v |-> value, env |-> variables afterwards]; operands left
 \* to right; && and || do not evaluate a right operand they do not need.
 RECURSIVE Ev(_, _, _)
 Ev(t, env, ty) ==
   CASE t.k = "id" -> [v |-> IF t.v \in DOMAIN env THEN env[t.v] ELSE UnkV, env |-> env]
-    [] t.k = "lit" -> [v |-> IF t.tag \in {"true", "false"} THEN BoolV(t.tag = "true") ELSE UnkV, env |-> env]
+    [] t.k = "lit" -> [v |-> CASE t.tag \in {"true", "false"} -> BoolV(t.tag = "true")
+                               [] t.tag = "null" -> NullV
+                               [] t.tag = "Prim" -> PrimVal(t.v)
+                               [] OTHER -> UnkV, env |-> env]
     [] t.k = "un" ->
          LET e == Ev(t.e, env, ty) IN
          IF Bad(e.v) THEN e ELSE [v |-> UnVal(t.op, e.v), env |-> e.env]
@@ -334,6 +383,7 @@ Outcome(t, np, cand) ==
       ty == [x \in {TyName(p) : p \in 1..np} |-> TyPool[cand[CHOOSE p \in 1..np : TyName(p) = x]]]
       r == Ev(t, env0, ty)
   IN IF Bad(r.v) THEN [k |-> r.v.k, v |-> r.v, env |-> <<>>]
+     ELSE IF r.v.k = "r" \/ \E p \in 1..np : r.env[VarName[p]].k = "r" THEN [k |-> "unk", v |-> UnkV, env |-> <<>>]
      ELSE [k |-> "ok", v |-> r.v, env |-> [p \in 1..np |-> r.env[VarName[p]]]]
 
 Known(o) == o.k # "unk"
